@@ -18,7 +18,7 @@ use std::collections::HashSet;
 
 use ruma_common::serde::Raw;
 use ruma_events::{
-    AnyToDeviceEventContent, AnyEphemeralRoomEvent, AnyGlobalAccountDataEvent, AnyMessageLikeEventContent, AnyStateEvent, AnyStateEventContent, AnyStrippedStateEvent, AnySyncTimelineEvent,
+    AnyGlobalAccountDataEventContent, AnyToDeviceEventContent, AnyEphemeralRoomEvent, AnyGlobalAccountDataEvent, AnyMessageLikeEventContent, AnyStateEvent, AnyStateEventContent, AnyStrippedStateEvent, AnySyncTimelineEvent,
     AnyTimelineEvent, AnyToDeviceEvent, EventContentFromType,
 };
 use serde::de::{Deserializer, MapAccess, SeqAccess, Visitor};
@@ -130,6 +130,27 @@ fn schemas() -> Vec<Schema> {
         s("m.key.verification.request", Kind::ToDevice, json!({"from_device": "D", "methods": ["m.sas.v1"], "timestamp": 5, "transaction_id": "t1"}), vec![]),
         s("m.room_key_request", Kind::ToDevice, json!({"action": "request_cancellation", "request_id": "r", "requesting_device_id": "D"}), vec![]),
         s("m.secret.request", Kind::ToDevice, json!({"action": "request", "name": "m.megolm_backup.v1", "request_id": "r", "requesting_device_id": "D"}), vec![]),
+        // forward-compatible values inside known event types: unknown msgtype / method / algorithm / join rule, with the
+        // relation and mention fields the outer content type writes itself
+        s("m.room.message", Kind::Message, json!({"msgtype": "org.example.custom_msg", "body": "b"}), vec![("m.relates_to", json!({"m.in_reply_to": {"event_id": "$e"}})), ("m.mentions", json!({"room": true})), ("payload", json!({"k": [1, 2]}))]),
+        s("m.room.message", Kind::Message, json!({"msgtype": "org.example.custom_msg", "body": "* b", "m.relates_to": {"rel_type": "m.replace", "event_id": "$e"}, "m.new_content": {"msgtype": "org.example.custom_msg", "body": "b"}}), vec![("m.mentions", json!({"user_ids": ["@b:s"]}))]),
+        s("m.room.message", Kind::Message, json!({"msgtype": "m.text", "body": "* b", "m.relates_to": {"rel_type": "m.replace", "event_id": "$e"}, "m.new_content": {"msgtype": "m.text", "body": "b"}}), vec![("m.mentions", json!({"user_ids": ["@b:s"]}))]),
+        s("m.room.message", Kind::Message, json!({"msgtype": "m.notice", "body": "b", "m.relates_to": {"rel_type": "m.thread", "event_id": "$root", "is_falling_back": true, "m.in_reply_to": {"event_id": "$e"}}}), vec![]),
+        s("m.room.join_rules", Kind::State, json!({"join_rule": "restricted", "allow": [{"type": "m.room_membership", "room_id": "!other:s"}]}), vec![]),
+        s("m.room.join_rules", Kind::State, json!({"join_rule": "org.example.rule"}), vec![]),
+        s("m.key.verification.start", Kind::ToDevice, json!({"from_device": "D", "method": "org.example.method", "key_agreement_protocols": ["curve25519-hkdf-sha256"], "hashes": ["sha256"],
+            "message_authentication_codes": ["hkdf-hmac-sha256.v2"], "short_authentication_string": ["decimal"], "transaction_id": "t1"}), vec![]),
+        s("m.key.verification.start", Kind::ToDevice, json!({"from_device": "D", "method": "org.example.method", "secret": "c2VjcmV0", "transaction_id": "t1"}), vec![]),
+        s("m.key.verification.start", Kind::ToDevice, json!({"from_device": "D", "method": "org.example.method", "transaction_id": "t1"}), vec![("payload", json!(1))]),
+        s("m.key.verification.accept", Kind::ToDevice, json!({"transaction_id": "t1", "method": "m.sas.v1", "key_agreement_protocol": "curve25519-hkdf-sha256", "hash": "sha256",
+            "message_authentication_code": "hkdf-hmac-sha256.v2", "short_authentication_string": ["decimal"], "commitment": "Y29tbWl0"}), vec![]),
+        s("m.key.verification.accept", Kind::ToDevice, json!({"transaction_id": "t1", "method": "org.example.method", "key_agreement_protocol": "curve25519-hkdf-sha256", "hash": "sha256",
+            "message_authentication_code": "hkdf-hmac-sha256.v2", "short_authentication_string": ["decimal"], "commitment": "Y29tbWl0"}), vec![]),
+        s("m.secret_storage.key.abc", Kind::Account, json!({"algorithm": "m.secret_storage.v1.aes-hmac-sha2"}), vec![("name", json!("n")), ("iv", json!("YWJjZGVmZ2hpamtsbW5vcA")), ("mac", json!("aWFtYW1hY2lhbWFtYWNpYW1hbWFjaWFtYW1hY2lhbWE"))]),
+        s("m.secret_storage.key.abc", Kind::Account, json!({"algorithm": "org.example.alg"}), vec![("name", json!("n")), ("payload", json!(1))]),
+        s("m.secret_storage.default_key", Kind::Account, json!({"key": "abc"}), vec![]),
+        s("m.push_rules", Kind::Account, json!({"global": {"override": [{"rule_id": ".m.rule.master", "default": true, "enabled": false, "conditions": [], "actions": []}]}}), vec![]),
+        s("m.identity_server", Kind::Account, json!({"base_url": "https://id.s"}), vec![]),
         s("org.example.unknown", Kind::State, json!({"anything": [1, {"x": null}]}), vec![("more", json!("x"))]),
         s("org.example.unknown.msg", Kind::Message, json!({"anything": 1}), vec![]),
         s("org.example.unknown.eph", Kind::Ephemeral, json!({"anything": 1}), vec![]),
@@ -414,7 +435,7 @@ fn check_event(acc: &mut Acc, s: &Schema, label: &str, content: &Value, redacted
             },
         }
         // ---- content fixpoint (original contents of room events)
-        if !redacted && !is_unknown && matches!(s.kind, Kind::State | Kind::Message | Kind::ToDevice) {
+        if !redacted && !is_unknown && matches!(s.kind, Kind::State | Kind::Message | Kind::ToDevice | Kind::Account) {
             let mut ctext = String::new();
             render(content, reversed, &mut ctext);
             let mut ctext_other = String::new();
@@ -424,6 +445,8 @@ fn check_event(acc: &mut Acc, s: &Schema, label: &str, content: &Value, redacted
             let ser = |raw: &RawValue| -> Result<String, String> {
                 if s.kind == Kind::State {
                     AnyStateEventContent::from_parts(s.ty, raw).map_err(|e| e.to_string()).and_then(|c| serde_json::to_string(&c).map_err(|e| e.to_string()))
+                } else if s.kind == Kind::Account {
+                    AnyGlobalAccountDataEventContent::from_parts(s.ty, raw).map_err(|e| e.to_string()).and_then(|c| serde_json::to_string(&c).map_err(|e| e.to_string()))
                 } else if s.kind == Kind::ToDevice {
                     AnyToDeviceEventContent::from_parts(s.ty, raw).map_err(|e| e.to_string()).and_then(|c| serde_json::to_string(&c).map_err(|e| e.to_string()))
                 } else {
